@@ -182,7 +182,7 @@ def _var_close(v_impl, v_ref, mean_ref, where):
     bad = np.abs(v_impl[ok] - v_ref[ok]) > tol
     if bad.any():
         j = int(np.argmax(bad))
-        return 'variance impl=%r ref=%r (mean %r)' \
+        return 'variance impl=%r ref=%r (max |x| %r)' \
             % (v_impl[ok][j], v_ref[ok][j], np.asarray(mean_ref)[ok][j])
     return None
 
@@ -350,7 +350,10 @@ def execute(case, keep_text=False):
             wn = np.array(wl) / max(wl)
             mean = np.tensordot(wn, X, axes=(0, 0)) / wn.sum()
             var = np.tensordot(wn, (X - mean) ** 2, axes=(0, 0)) / wn.sum()
-            msg = _var_close(impl_std ** 2, var, mean, key)
+            # round-off of the streaming update is of order eps*max|x|^2,
+            # also for samples whose weight is negligible in the mean
+            scale = np.sqrt(np.max(X ** 2, axis=0))
+            msg = _var_close(impl_std ** 2, var, scale, key)
             if msg:
                 viol('std-mismatch', key,
                      '%s R=%d per-rank counts=%s' % (msg, Rn, per_rank))
